@@ -1,5 +1,143 @@
 import JF.Driver.Core
+import JF.Model.PiecewiseBounding
+/-
+Line protocol of component `pcb` (model `JF.Model.PiecewiseBounding`, binary64 reading).  A session is a sequence of
+handler objects; `new` constructs one (fresh state), `evt` / `out` are calls on the current object.
+
+  displ <q1> <q2> <offset> <dmax> <E>      -> <displacement> <cache|->          (the three branches alone)
+  new <kind 0=two-leaf|1=fixed-separations> <L> <dim> <tiny> <offset> <dmax> <useCharge> <nCharge> <n> sep..   -> ok
+  evt <E> <nroots> ROOT* DERIV DERIV       -> err:<Exc> | ok T <q> <r> B<cache|-> C <n> CALL* S STATE
+  out DERIV <d|r> <draw> <idlen> id..      -> err:<Exc> | ok <confirmed> <warned> G<limit of uniform|-> B<cache|-> C <n> CALL*
+                                              I <n> INSERT* S STATE
+     DERIV = s <x> | t <n> x..
+     UNIT  = <idlen> id.. <dim> pos.. <charge> <hasVel> [<dim> vel.. <tq> <tr>]
+     ROOT  = UNIT <weight> <nchildren> {UNIT <weight>}*
+     CALL  = <n> vel.. <nseps> {<n> s..}* <n> charge..
+-/
+namespace JF.Driver.PcbD
+open JF JF.Thin JF.Pcb JF.Driver
+
+abbrev P := StateT (List String) Option
+
+def tok : P String := fun s => match s with
+  | [] => none
+  | t :: r => some (t, r)
+def pf : P Float := do return fl (← tok)
+def pn : P Nat := do return nat! (← tok)
+def pb : P Bool := do return (← tok) == "1"
+def rep {β : Type} (n : Nat) (p : P β) : P (List β) :=
+  match n with
+  | 0 => pure []
+  | n + 1 => do let x ← p; let xs ← rep n p; return x :: xs
+def plist {β : Type} (p : P β) : P (List β) := do let n ← pn; rep n p
+
+def punit : P (LUnit Float) := do
+  let id ← plist pn
+  let pos ← plist pf
+  let ch ← pf
+  let hv ← pb
+  if hv then
+    let v ← plist pf
+    let q ← pf
+    let r ← pf
+    return ⟨id, pos, ch, some v, some ⟨q, r⟩⟩
+  else return ⟨id, pos, ch, none, none⟩
+
+def proot : P (CNode Float) := do
+  let u ← punit
+  let w ← pf
+  let cs ← plist (do let cu ← punit; let cw ← pf; return (cu, cw))
+  return ⟨u, w, cs⟩
+
+def pderiv : P (Deriv Float) := do
+  let k ← tok
+  if k == "s" then return .scalar (← pf) else return .tuple (← plist pf)
+
+def showList (l : List Float) : List String := toString l.length :: l.map bits
+def showIds (l : List Nat) : List String := toString l.length :: l.map toString
+
+def showUnit (u : LUnit Float) : List String :=
+  ["U"] ++ showIds u.id ++ showList u.pos ++
+  (match u.vel with | some v => "V" :: showList v | none => ["N"]) ++
+  (match u.ts with | some t => ["T", bits t.q, bits t.r] | none => ["N"])
+
+def showState (st : List (CNode Float)) : List String :=
+  st.flatMap fun r => ["R", toString r.children.length] ++ showUnit r.unit ++ r.children.flatMap fun cw => showUnit cw.1
+
+def showOpt (tag : String) : Option Float → String
+  | some b => tag ++ bits b
+  | none => tag ++ "-"
+
+def showCalls (calls : List (PCall Float)) : List String :=
+  ["C", toString calls.length] ++
+  calls.flatMap fun c => showList c.vel ++ [toString c.seps.length] ++ c.seps.flatMap showList ++ showList c.charges
+
+def showReply (h : HState Float) : Reply Float → String
+  | .err t => "err:" ++ t
+  | .time t calls =>
+    joinSp (["ok", "T", bits t.q, bits t.r, showOpt "B" h.cache] ++ showCalls calls ++ ["S"] ++ showState (h.st.getD []))
+  | .out r =>
+    joinSp (["ok", b01 r.confirmed, b01 r.warned, showOpt "G" r.uni, showOpt "B" h.cache] ++ showCalls r.calls ++
+      ["I", toString r.inserts.length] ++ r.inserts.flatMap (fun i => [bits i.1] ++ showIds i.2.1 ++ [b01 i.2.2]) ++
+      ["S"] ++ showState r.st)
+
+def pnew : P (Params Float) := do
+  let k ← pn
+  let L ← pf
+  let dim ← pn
+  let tiny ← pf
+  let offset ← pf
+  let dmax ← pf
+  let uc ← pb
+  let nc ← pn
+  let seps ← plist pn
+  return ⟨if k == 0 then .twoLeaf else .fixedSep, L, dim, tiny, offset, dmax, uc, nc, seps⟩
+
+def pevt : P (Step Float) := do
+  let E ← pf
+  let st ← plist proot
+  let d1 ← pderiv
+  let d2 ← pderiv
+  return .evt st E d1 d2
+
+def pout : P (Step Float) := do
+  let d ← pderiv
+  let mode ← tok
+  let dv ← pf
+  let nextId ← plist pn
+  return .out d (if mode == "r" then .unit dv else .value dv) nextId
+
+structure Sess where
+  p : Option (Params Float)
+  h : HState Float
+
+def stepSess (s : Sess) : List String → Sess × String
+  | ["displ", q1, q2, off, dmax, E] =>
+    let r := displacement Ops.float (fl q1) (fl q2) (fl off) (fl dmax) (fl E)
+    (s, joinSp [bits r.1, showOpt "" r.2])
+  | "new" :: rest =>
+    match pnew.run rest with
+    | some (p, []) => (⟨some p, HState.init⟩, "ok")
+    | _ => (s, "bad-args")
+  | "evt" :: rest =>
+    match s.p, pevt.run rest with
+    | some p, some (st, []) =>
+      let (h', r) := step Ops.float p s.h st
+      (⟨some p, h'⟩, showReply h' r)
+    | none, _ => (s, "no-handler")
+    | _, _ => (s, "bad-args")
+  | "out" :: rest =>
+    match s.p, pout.run rest with
+    | some p, some (st, []) =>
+      let (h', r) := step Ops.float p s.h st
+      (⟨some p, h'⟩, showReply h' r)
+    | none, _ => (s, "no-handler")
+    | _, _ => (s, "bad-args")
+  | _ => (s, "bad-op")
+
+end JF.Driver.PcbD
+
 namespace JF.Driver
-/-- component `pcb` (piecewise-constant bounding handlers; stub until its model is written) -/
-def pcbComp : Comp := Comp.pure fun _ => "unimplemented"
+/-- component `pcb` (piecewise-constant bounding handlers) -/
+def pcbComp : Comp := ⟨PcbD.Sess, ⟨none, JF.Pcb.HState.init⟩, PcbD.stepSess⟩
 end JF.Driver
